@@ -952,11 +952,33 @@ class Sym:
                         self.phi_defs[nm] = [(raw[i][0], ps[i]) for i in range(len(ps))]
                     return Poly.sym(nm)
             return None
+        if k == "field":
+            comp = self.tuple_component(t)
+            if comp is not None:
+                return self.poly(comp)
         if k in ("field", "param", "index", "try", "downcast"):
             return Poly.sym(self.name(t))
         if k == "loopval":
             inner = self.poly(t[2][0]) if t[2] else None
             return Poly.sym(self.loop_sym(t[1], str(inner) if inner is not None else "?"))
+        return None
+
+    def tuple_component(self, t):
+        """`v.k` where the multi-definition local v holds, on the current path, a tuple/struct literal
+        (`let (a, b) = match x { .. => (e1, e2), .. }`): the component term, else None"""
+        b = strip(t[1])
+        if b[0] != "var" or self.path_blocks is None or ("tc", b[1]) in self._busy_vars:
+            return None
+        try:
+            ds = self.var_defs(b[1], b[2] if len(b) > 2 else None)
+        except Exception:
+            ds = None
+        if not ds or len(ds) != 1:
+            return None
+        d = strip(ds[0])
+        if d[0] == "aggr" and (d[1] == "tuple" or d[1].startswith("adt:")) and isinstance(t[2], int) and t[2] < len(d[2]) \
+                and not d[1].endswith(("::Some", "::Ok", "::Err")):
+            return d[2][t[2]]
         return None
 
     def var_defs(self, l, pos=None):
@@ -1232,6 +1254,13 @@ class Sym:
                             return "None{}"
             return "%s(%s)" % (self.call_sig(t), ",".join(self.arg_name(a) for a in t[2]))
         if k == "field":
+            comp = self.tuple_component(t)
+            if comp is not None:
+                self._busy_vars.add(("tc", strip(t[1])[1]))
+                try:
+                    return self.name(comp)
+                finally:
+                    self._busy_vars.discard(("tc", strip(t[1])[1]))
             if t[2] == 0 and strip(t[1])[0] == "downcast" and strip(t[1])[2] == "Ok":
                 return "%s?" % self.name(strip(t[1])[1])        # Ok payload: the value of `X?`
             return "%s.%d" % (self.name(t[1]), t[2])
